@@ -108,6 +108,71 @@ def intersect_operands(ctx, R):
 
 
 
+def key_literal_rule(ctx, R):
+    """The literal the grammar demands for an object key must be exactly what a JSON serialiser writes for that key
+    (quotes, `\\uXXXX` for controls, everything else verbatim): in gen_json_object every string handed to
+    GrammarBuilder::string for a property name — and every name recorded as taken — is the result of serde_json's
+    serialiser (directly or through the json_dumps helper).  Rust's `{:?}`, `escape_default`, or manual quoting agree with JSON
+    on ASCII keys only."""
+    P = ctx.prog
+    b = ctx.try_body("llguidance::json::compiler::Compiler::gen_json_object", R)
+    if b is None:
+        return
+
+    def origin(e, depth=0):
+        """callee that produced the string behind expression e (through borrows, derefs, clones)"""
+        if depth > 10:
+            return None
+        if e[0] == "call":
+            last = e[1].rsplit("::", 1)[-1]
+            if last in ("deref", "as_str", "as_ref", "borrow", "clone", "to_string", "to_owned", "into", "from", "as_bytes") and e[2] and not e[1].startswith("serde_json"):
+                return origin(e[2][0], depth + 1)
+            return e[1]
+        if e[0] in ("ref", "place") and isinstance(e[1][0], int):
+            ds = [d for d in b.defs().get(e[1][0], []) if d[2] != "partial"]
+            if len(ds) == 1 and ds[0][2] == "call":
+                t = ds[0][3]
+                return origin(("call", t["f"].get("def", ""), [b.expr(a) for a in t["args"]], ds[0][0]), depth + 1)
+            if len(ds) == 1 and ds[0][2] == "assign":
+                ex = b.expr_rvalue(ds[0][3])
+                if ex != e:
+                    return origin(ex, depth + 1)
+        if e[0] == "cast":
+            return origin(e[1], depth + 1)
+        return None
+
+    def is_json_ser(d):
+        return bool(d) and (d.endswith("json::compiler::json_dumps") or (d.startswith("serde_json::") and "to_string" in d) or d.startswith("serde_json::ser::"))
+
+    # key literals: GrammarBuilder::string calls inside the loop over properties (reachable from the properties iterator's next())
+    sites = []
+    for bi, t in b.calls():
+        d = t["f"].get("def", "")
+        if d.endswith("GrammarBuilder::string") and len(t["args"]) >= 2:
+            o = origin(b.expr(t["args"][1]))
+            if o is None:
+                continue   # a constant such as "{" / "}" / separators
+            sites.append((bi, "key literal", o))
+        if d.rsplit("::", 1)[-1] == "push" and len(t["args"]) == 2:
+            a0 = b.expr(t["args"][0])
+            root = a0[1][0] if a0[0] in ("ref", "place") and isinstance(a0[1][0], int) else None
+            if root is not None and b.local_ty(root).replace(" ", "") in ("alloc::vec::Vec<alloc::string::String>", "Vec<String>", "std::vec::Vec<std::string::String>"):
+                o = origin(b.expr(t["args"][1]))
+                if o is not None and b.locals[root].get("n") and "unquoted" not in (b.locals[root].get("n") or ""):
+                    sites.append((bi, "taken name", o))
+    n = 0
+    for bi, what, o in sites:
+        if o.endswith("::to_string") and not o.startswith("serde_json"):
+            continue
+        n += 1
+        ctx.check(is_json_ser(o), R, "key-literal:json-serialised:%s@%s" % (what.replace(" ", "-"), n),
+                  "the %s is produced by serde_json's serialiser (%s)" % (what, o.rsplit("::", 2)[-1]),
+                  "gen_json_object builds the %s with `%s` instead of serde_json's serialiser: for keys with characters that Rust's own "
+                  "escaping renders differently from JSON (combining marks, ZWJ, DEL, \\b, \\f ...) the grammar demands a literal no JSON "
+                  "serialiser writes, and the real key is no longer excluded from additionalProperties" % (what, o), site=b.where(bi))
+    ctx.floor(R, "property-name literals in gen_json_object", n, 2)
+
+
 def run(ctx):
     P = ctx.prog
     obj = P.adts.get(JS + "ObjectSchema")
@@ -215,6 +280,9 @@ def run(ctx):
     ctx.check(not bad, "C07-R1", "gen_json_object:items-not-reordered", "items is never sorted or reversed", "gen_json_object reorders items with %s" % bad, site=go.where())
 
     intersect_operands(ctx, "C07-R3")
+
+    # ---- R5: a property name becomes a grammar literal through JSON serialisation, nothing else
+    key_literal_rule(ctx, "C07-R5")
 
     # ---- R4: the only token removed from every mask is the bare marker token (or none): shared with C19-R2
     ctx.import_clauses("c19", "C19-R2", ["marker-"], "C07-R4")
